@@ -659,6 +659,7 @@ type Conn struct {
 	closedFlag    bool
 	closed        chan struct{}
 	rdl           time.Time
+	wdl           time.Time // write deadline (writes never block here, so only a deadline in the past matters)
 	rdlCh         chan struct{}
 	ReadErr       error
 	WriteErr      error
@@ -788,6 +789,12 @@ func (c *Conn) Write(p []byte) (int, error) {
 
 		return 0, err
 	}
+	if !c.wdl.IsZero() && !time.Now().Before(c.wdl) {
+		// a write deadline in the past fails every write, as on a kernel socket
+		c.mu.Unlock()
+
+		return 0, timeoutErr{}
+	}
 	c.mu.Unlock()
 	if c.peer.isClosed() {
 		return 0, errors.New("simnet: write: broken pipe")
@@ -852,7 +859,11 @@ func (c *Conn) RemoteAddr() net.Addr {
 }
 
 // SetDeadline sets the read deadline.
-func (c *Conn) SetDeadline(t time.Time) error { return c.SetReadDeadline(t) }
+func (c *Conn) SetDeadline(t time.Time) error {
+	_ = c.SetWriteDeadline(t)
+
+	return c.SetReadDeadline(t)
+}
 
 // SetReadDeadline sets the read deadline.
 func (c *Conn) SetReadDeadline(t time.Time) error {
@@ -869,7 +880,13 @@ func (c *Conn) SetReadDeadline(t time.Time) error {
 }
 
 // SetWriteDeadline is a no-op.
-func (c *Conn) SetWriteDeadline(time.Time) error { return nil }
+func (c *Conn) SetWriteDeadline(t time.Time) error {
+	c.mu.Lock()
+	c.wdl = t
+	c.mu.Unlock()
+
+	return nil
+}
 
 // FailRead makes the pending/next Read fail.
 func (c *Conn) FailRead(err error) {
@@ -1170,6 +1187,14 @@ func (n *Net) DialTCPAddr(laddr, raddr *net.TCPAddr) (*Conn, error) {
 		} else {
 			laddr = &net.TCPAddr{IP: n.DefaultV6}
 		}
+	}
+	if laddr.IP == nil || laddr.IP.IsUnspecified() {
+		// an unspecified local IP: the "kernel" picks the default source address of the family
+		ip := n.DefaultV4
+		if !isV4(raddr.IP) {
+			ip = n.DefaultV6
+		}
+		laddr = &net.TCPAddr{IP: ip, Port: laddr.Port}
 	}
 	lp := laddr.Port
 	if lp == 0 {
